@@ -1,6 +1,8 @@
 //! One public operation applied to the real `LeanString` and to the `ModelStr` oracle with
 //! solver-chosen arguments.  Return values are compared inside; the caller checks INV afterwards.
 
+#[cfg(not(kani))]
+use crate::nk as kani;
 use crate::model::{self, ModelStr, MCAP};
 use crate::shim;
 use core::fmt::Write;
